@@ -46,6 +46,9 @@ structure M6 where
   /-- the root context was cancelled while installed: instances fail without any `cbout` line (cancelled before
   they entered, or started with the cancelled context), so every key is a suspect from then on -/
   susAll : Bool := false
+  /-- keys whose reference table is uncertain: an `AddKeyRef` or `RemoveKey` (refcount) on them overlapped another
+  call, so a reference the monitor lists may be released already, or the other way round -/
+  unsureK : List Nat := []
   /-- run id ↦ key -/
   runKey : List Nat := []
   live : List (Option Nat) := []
@@ -110,13 +113,15 @@ def M6.weakRet (m : M6) : Op → Res → M6
   | .resetAll _, _ => m
   | .setContext c _, _ => { m with hasCtx := c.isSome }
   | .addKeyRef k, .ref r _ _ =>
-    { m.setSt k .any with live := setAt m.live r (some k), liveDef := setAt m.liveDef r (some k) }
+    { m.setSt k .any with live := setAt m.live r (some k), liveDef := setAt m.liveDef r (some k),
+                          unsureK := k :: m.unsureK }
   | .release r, _ =>
     match m.live[r]? with
     | some (some k) => { m.setSt k .any with live := m.live.set r none }
     | _ => m
   | .rcRemoveKey k, _ =>
-    { m.setSt k .any with live := m.live.map fun x => if x == some k then none else x }
+    -- a reference taken by an overlapping `AddKeyRef` may have survived: the listed ones stay listed
+    { m.setSt k .any with unsureK := k :: m.unsureK }
   | _, _ => m
 
 /-- the rule of a call, applied when its results are known -/
@@ -185,10 +190,12 @@ def M6.ret (m : M6) : Op → Res → Option M6
     match m.live[r]? with
     | some (some k) =>
       let m := { m with live := m.live.set r none }
-      some (if liveCountM m k == 0 then m.dismiss k else m)
+      some (if m.unsureK.contains k then m.setSt k .any
+            else if liveCountM m k == 0 then m.dismiss k else m)
     | _ => some m
   | .rcRemoveKey k, .bool b => do
-    let m := { m with live := m.live.map fun x => if x == some k then none else x }
+    let m := { m with live := m.live.map (fun x => if x == some k then none else x),
+                      unsureK := m.unsureK.filter (· != k) }
     let m ← m.observe k b
     pure (if b then m.dismiss k else m)
   | _, _ => none
@@ -284,6 +291,11 @@ structure M7 where
   advanced : Bool := false
   /-- live references (`KeyedRefCount`) -/
   live : List (Option Nat) := []
+  /-- keys that a call which overlapped another one may have dismissed (not requested again since): their
+  routine may be removed by the release delay, so no retry is demanded for them -/
+  maybeGone : List Nat := []
+  /-- per key: data of the last constructor line seen -/
+  lastD : List (Nat × Nat) := []
 deriving Repr
 
 def genOf (m : M7) (k d : Nat) : Nat :=
@@ -317,7 +329,11 @@ def M7.dismiss (m : M7) (k : Nat) : M7 :=
     (if m.leavingK.any (·.1 == k) then m.unowe k else { m.unowe k with leavingK := (k, m.epoch) :: m.leavingK })
   else m.kill k
 
-def M7.unleave (m : M7) (k : Nat) : M7 := { m with leavingK := m.leavingK.filter (·.1 != k) }
+def M7.unleave (m : M7) (k : Nat) : M7 :=
+  { m with leavingK := m.leavingK.filter (·.1 != k), maybeGone := m.maybeGone.filter (· != k) }
+
+/-- an overlapped call may have dismissed `k` -/
+def M7.gone (m : M7) (k : Nat) : M7 := { m.touch k with maybeGone := k :: m.maybeGone }
 
 def M7.inv (m : M7) : Op → M7
   | .setKey k st => if st then (m.touch k).unleave k else m.unleave k
@@ -325,7 +341,7 @@ def M7.inv (m : M7) : Op → M7
   -- with condition functions the call may leave the routine (and a pending retry) alone: decided at `ret`
   | .resetRoutine k cs => if cs.isEmpty then (m.touch k).unleave k else m
   | .restartRoutine k cs => if cs.isEmpty then m.touch k else m
-  | .resetAll cs => if cs.isEmpty then { m.touchAll with leavingK := [] } else m
+  | .resetAll cs => if cs.isEmpty then { m.touchAll with leavingK := [], maybeGone := [] } else m
   | .restartAll cs => if cs.isEmpty then m.touchAll else m
   | .setContext _ _ => m.touchAll
   | .addKeyRef k => (m.touch k).unleave k
@@ -363,14 +379,14 @@ def M7.ret (m : M7) : Op → Res → M7
 /-- a call that overlapped another one returned: only the reference table is kept exact; nothing is
 concluded about removal -/
 def M7.weakRet (m : M7) : Op → Res → M7
-  | .removeKey k, _ => m.touch k
-  | .rcRemoveKey k, _ => { m.touch k with live := m.live.map fun x => if x == some k then none else x }
+  | .removeKey k, _ => m.gone k
+  | .rcRemoveKey k, _ => { m.gone k with live := m.live.map fun x => if x == some k then none else x }
   | .addKeyRef k, .ref r _ _ => { m with live := setAt m.live r (some k) }
   | .release r, _ =>
     match m.live[r]? with
-    | some (some k) => { m.touch k with live := m.live.set r none }
+    | some (some k) => { m.gone k with live := m.live.set r none }
     | _ => m
-  | .syncKeys _ _, .sync _ rm => rm.foldl (fun m k => m.touch k) m
+  | .syncKeys _ _, .sync _ rm => rm.foldl (fun m k => m.gone k) m
   | .setContext none _, _ => { m with hasCtx := false }
   | .setContext (some _) _, _ => { m with hasCtx := true }
   | .resetRoutine k cs, _ => if cs.isEmpty then m else (m.touch k).unleave k
@@ -396,11 +412,11 @@ def monC07 : ObsMonitor Obs M7 where
           | .resetRoutine k' _ => k' == k
           | .resetAll _ => true
           | _ => false) then
-        some { m with fails := alSet m.fails k 0, born := alSet m.born k m.epoch }
+        some { m with fails := alSet m.fails k 0, born := alSet m.born k m.epoch, lastD := alSet m.lastD k d }
       else
         -- the constructor ran for a key that was not in the set: a new generation
         some { m with gstarts := alSet m.gstarts k (d :: (alGet m.gstarts k).getD []),
-                      fails := alSet m.fails k 0, born := alSet m.born k m.epoch }
+                      fails := alSet m.fails k 0, born := alSet m.born k m.epoch, lastD := alSet m.lastD k d }
     | .ret id res =>
       match m.pending.find? (·.1 == id) with
       | some (_, op, overlapped) =>
@@ -409,6 +425,10 @@ def monC07 : ObsMonitor Obs M7 where
       | none => none
     | .cbin j k d =>
       if j != m.runs.length then none
+      -- the constructor line of this run's record has not been seen yet (it is logged inside a call that is
+      -- still in progress): its generation is not known, nothing is concluded from or about this run
+      else if d > (alGet m.lastD k).getD 0 then
+        some { m with runs := m.runs ++ [{ key := k, data := d, stale := true }], owed := m.owed.filter (·.1 != k) }
       else
         let g := genOf m k d
         -- (1) no other routine function of this generation is running
@@ -435,7 +455,7 @@ def monC07 : ObsMonitor Obs M7 where
             -- replaced may still have been counted (`SetKey(k, true)` on a running routine replaces nothing)
             let n := (alGet m.fails r.key).getD 0
             let m := { m with fails := alSet m.fails r.key (n + 1) }
-            if r.stale || !m.hasCtx || genOf m r.key r.data != curGen m r.key
+            if r.stale || !m.hasCtx || m.maybeGone.contains r.key || genOf m r.key r.data != curGen m r.key
                || m.dead.any (fun x => x.1 == r.key && x.2.1 == curGen m r.key) then some m
             else
               match m.retry with
